@@ -2,11 +2,12 @@ from check import run_diff_property
 import lib
 
 CFG = dict(
-    streams=[('ja3', 3000, 40000), ('e2e', 150, 2500), ('rw', 800, 12000)],
-    oracle_ops={'ja3spec', 'ja3fpspec', 'e2e', 'rwspec05'},
-    twophase_ops={'e2e'},
-    ops_filter={'ja3', 'ja3fp', 'ja3spec', 'ja3fpspec', 'ser', 'e2e', 'rwspec05'},
-    project={'e2e': lib.proj_e2e({'ja3', 'st'})},
+    streams=[('ja3', 3000, 40000), ('e2e', 150, 2500), ('rw', 800, 12000), ('e2emulti', 8, 150)],
+    race_streams={'e2emulti'},
+    oracle_ops={'ja3spec', 'ja3fpspec', 'e2e', 'rwspec05', 'e2emulti'},
+    twophase_ops={'e2e', 'e2emulti'},
+    ops_filter={'ja3', 'ja3fp', 'ja3spec', 'ja3fpspec', 'ser', 'e2e', 'rwspec05', 'e2emulti'},
+    project={'e2e': lib.proj_e2e({'ja3', 'st'}), 'e2emulti': lib.multi(f1=lib.proj_e2e({'ja3', 'st'}))},
     rule=("structured well-formed ClientHellos (list lengths 0,1,2,3..130 with GREASE forced first/last/only/all, "
           "no-extension hellos, SNI lengths swept over 250..260 and 505..520) serialised and pushed through "
           "tlsx+ja3.Bare / fingerprint.JA3Fingerprint; plus truncations, bit flips, trailing bytes and random bytes; "
